@@ -4,6 +4,7 @@ import (
 	"fmt"
 	"go/ast"
 	"go/token"
+	"go/types"
 	"strings"
 
 	"verif/checker/internal/core"
@@ -124,6 +125,7 @@ func ruleC07Contexts(c *ctx.Ctx, r *core.Reporter) {
 			return true
 		})
 		r.Check(ok, "cloning-helper:clones-array-and-struct", c.Pos(fd.Pos()), "translateImplicitConversionWithCloning emits $clone for both *types.Struct and *types.Array destinations")
+		checkCloneBypasses(c, r, fd)
 	}
 	// translateAssign: Array|Struct destinations copy (follow a pure delegation wrapper)
 	if fd := followDelegation(c, c.FuncDecl("compiler", "funcContext.translateAssign")); fd != nil {
@@ -181,7 +183,59 @@ func ruleC07Contexts(c *ctx.Ctx, r *core.Reporter) {
 			// the only bypasses are the reviewed ones
 			src := nodeString(c, fd.Body)
 			r.Check(strings.Contains(src, `named.Obj().Pkg().Path() == "reflect" && named.Obj().Name() == "Value"`), "assign:bypass:reflect.Value", c.Pos(fd.Pos()), "the only named type exempt from copying is reflect.Value (reviewed performance exception)")
-			r.Check(strings.Contains(src, "rhs.(*ast.CompositeLit); ok && define"), "assign:bypass:fresh-literal", c.Pos(fd.Pos()), "a definition from a composite literal stores the fresh value without a second copy")
+			// every return that precedes the copying arm is a bypass of it; the reviewed ones are the map store
+			// (which clones through the helper, see must-clone:map-store) and the definition from a composite
+			// literal — where "definition" must be a conjunct of the guard: for a plain assignment the
+			// destination may already be aliased, so it has to be copied into, not rebound
+			defineParam, rhsParam := "", ""
+			if ps := fd.Type.Params.List; len(ps) >= 2 {
+				if last := ps[len(ps)-1]; len(last.Names) == 1 && exprStr(last.Type) == "bool" {
+					defineParam = last.Names[0].Name
+				}
+				if first := ps[0]; len(first.Names) == 2 {
+					rhsParam = first.Names[1].Name
+				}
+			}
+			nBypass := 0
+			ast.Inspect(fd.Body, func(n ast.Node) bool {
+				if _, isLit := n.(*ast.FuncLit); isLit {
+					return false
+				}
+				ret, ok := n.(*ast.ReturnStmt)
+				if !ok || ret.Pos() >= arm.Pos() {
+					return true
+				}
+				kind, hasDefine := "", false
+				for _, is := range enclosingIfs(fd.Body, ret.Pos()) {
+					if as, ok := is.Init.(*ast.AssignStmt); ok && len(as.Rhs) == 1 {
+						if ta, ok := as.Rhs[0].(*ast.TypeAssertExpr); ok && ta.Type != nil {
+							switch exprStr(ta.Type) {
+							case "*ast.IndexExpr", "*types.Map":
+								kind = "map-store"
+							case "*ast.CompositeLit":
+								if exprStr(ta.X) == rhsParam {
+									kind = "fresh-literal"
+								}
+							}
+						}
+					}
+					for _, cj := range conjuncts(is.Cond) {
+						if id, ok := cj.(*ast.Ident); ok && id.Name == defineParam && defineParam != "" {
+							hasDefine = true
+						}
+					}
+				}
+				nBypass++
+				switch kind {
+				case "map-store":
+				case "fresh-literal":
+					r.Check(hasDefine, "assign:bypass:fresh-literal", c.Pos(ret.Pos()), "the store without a copy of a composite literal is taken only for a definition (`"+defineParam+"` is a conjunct of its guard): a plain assignment must copy into the existing, possibly aliased, destination")
+				default:
+					r.Violation(fmt.Sprintf("assign:bypass:unreviewed#%d", nBypass), c.Pos(ret.Pos()), "an early return ahead of the copying arm that is neither the map store nor the definition from a composite literal")
+				}
+				return true
+			})
+			r.Check(nBypass >= 1, "assign:bypass:inventory", c.Pos(fd.Pos()), fmt.Sprintf("%d early returns precede the copying arm, all reviewed", nBypass))
 		}
 	}
 	// inventory of the non-cloning helper
@@ -367,4 +421,156 @@ func followDelegation(c *ctx.Ctx, fd *ast.FuncDecl) *ast.FuncDecl {
 		fd = next
 	}
 	return fd
+}
+
+// enclosingIfs lists, outermost first, the if statements whose then-branch contains pos.
+func enclosingIfs(root ast.Node, pos token.Pos) []*ast.IfStmt {
+	var out []*ast.IfStmt
+	ast.Inspect(root, func(n ast.Node) bool {
+		if n == nil || !(n.Pos() <= pos && pos < n.End()) {
+			return n == root
+		}
+		if is, ok := n.(*ast.IfStmt); ok && is.Body.Pos() <= pos && pos < is.Body.End() {
+			out = append(out, is)
+		}
+		return true
+	})
+	return out
+}
+
+// conjuncts splits a condition on && (through parentheses).
+func conjuncts(e ast.Expr) []ast.Expr {
+	switch x := e.(type) {
+	case *ast.ParenExpr:
+		return conjuncts(x.X)
+	case *ast.BinaryExpr:
+		if x.Op == token.LAND {
+			return append(conjuncts(x.X), conjuncts(x.Y)...)
+		}
+	}
+	return []ast.Expr{e}
+}
+
+// checkCloneBypasses: inside the Struct|Array arm of the cloning helper every return must produce a
+// $clone, except under a guard that admits only expressions denoting a fresh value. The only such
+// expression class is the composite literal: a call result is NOT fresh, because return statements hand
+// out stored arrays and structs without copying (translateResults uses the non-cloning conversion).
+func checkCloneBypasses(c *ctx.Ctx, r *core.Reporter, fd *ast.FuncDecl) {
+	info := c.Pkg("compiler").TypesInfo
+	var arm *ast.CaseClause
+	ast.Inspect(fd.Body, func(n ast.Node) bool {
+		if cc, ok := n.(*ast.CaseClause); ok && arm == nil {
+			labs := map[string]bool{}
+			for _, l := range cc.List {
+				labs[exprStr(l)] = true
+			}
+			if labs["*types.Struct"] && labs["*types.Array"] {
+				arm = cc
+			}
+		}
+		return true
+	})
+	if arm == nil {
+		return
+	}
+	nRet, nClone := 0, 0
+	ast.Inspect(arm, func(n ast.Node) bool {
+		ret, ok := n.(*ast.ReturnStmt)
+		if !ok {
+			return true
+		}
+		nRet++
+		isClone := false
+		for _, ce := range findCalls(info, ret, modPath("compiler"), "funcContext.formatExpr") {
+			if t := templateOfCall(c, ce); t != nil && strings.HasPrefix(t.Text, "$clone(") {
+				isClone = true
+			}
+		}
+		if isClone {
+			nClone++
+			return true
+		}
+		// a bypass: every admitted expression class must be fresh
+		guards := enclosingIfs(arm, ret.Pos())
+		if len(guards) == 0 {
+			r.Violation(fmt.Sprintf("cloning-helper:bypass#%d", nRet), c.Pos(ret.Pos()), "an unconditional return without $clone in the Struct|Array arm of the cloning helper")
+			return true
+		}
+		classes, why := freshClasses(c, info, guards)
+		bad := []string{}
+		for _, cl := range classes {
+			if cl != "*ast.CompositeLit" {
+				bad = append(bad, cl)
+			}
+		}
+		switch {
+		case why != "":
+			r.Undecided(fmt.Sprintf("cloning-helper:bypass#%d", nRet), c.Pos(ret.Pos()), "cannot determine which expressions skip the copy: "+why)
+		default:
+			r.Check(len(bad) == 0, fmt.Sprintf("cloning-helper:bypass#%d", nRet), c.Pos(ret.Pos()), fmt.Sprintf("the copy is skipped only for expressions that denote a fresh value (admitted: %v; not fresh: %v — a call result may be an array or struct stored elsewhere, since return statements do not copy)", classes, bad))
+		}
+		return true
+	})
+	r.Check(nClone >= 1, "cloning-helper:clone-return", c.Pos(arm.Pos()), fmt.Sprintf("the Struct|Array arm has a return that produces $clone (%d of %d returns)", nClone, nRet))
+}
+
+// freshClasses determines the syntactic classes of expressions admitted by the guards: each guard is a
+// type assertion `_, ok := e.(*ast.X); ok` or a call of a predicate of package compiler whose body is a
+// type switch returning true in some arms.
+func freshClasses(c *ctx.Ctx, info *types.Info, guards []*ast.IfStmt) (classes []string, undecided string) {
+	for _, g := range guards {
+		if as, ok := g.Init.(*ast.AssignStmt); ok && len(as.Rhs) == 1 {
+			if ta, ok := as.Rhs[0].(*ast.TypeAssertExpr); ok && ta.Type != nil && len(conjuncts(g.Cond)) == 1 {
+				classes = append(classes, exprStr(ta.Type))
+				continue
+			}
+		}
+		call, ok := g.Cond.(*ast.CallExpr)
+		if !ok {
+			return nil, "guard `" + exprStr(g.Cond) + "` is neither a type assertion nor a predicate call"
+		}
+		pkg, recv, name := callee(info, call)
+		if pkg != modPath("compiler") {
+			return nil, "predicate " + exprStr(call.Fun) + " is not a function of package compiler"
+		}
+		key := name
+		if recv != "" {
+			key = recv + "." + name
+		}
+		pd := c.FuncDecl("compiler", key)
+		if pd == nil || pd.Body == nil {
+			return nil, "predicate " + key + " not found"
+		}
+		found := false
+		ast.Inspect(pd.Body, func(n ast.Node) bool {
+			ts, ok := n.(*ast.TypeSwitchStmt)
+			if !ok {
+				return true
+			}
+			found = true
+			for _, st := range ts.Body.List {
+				cc := st.(*ast.CaseClause)
+				mayBeTrue := false
+				ast.Inspect(cc, func(m ast.Node) bool {
+					if ret, ok := m.(*ast.ReturnStmt); ok && len(ret.Results) == 1 && exprStr(ret.Results[0]) != "false" {
+						mayBeTrue = true
+					}
+					return true
+				})
+				if mayBeTrue {
+					if cc.List == nil {
+						classes = append(classes, "default")
+					}
+					for _, l := range cc.List {
+						classes = append(classes, exprStr(l))
+					}
+				}
+			}
+			return false
+		})
+		if !found {
+			return nil, "predicate " + key + " is not a type switch over the expression"
+		}
+	}
+	return classes, ""
 }
